@@ -66,6 +66,10 @@ fn traj(g: &mut SplitMix64, ncases: usize) {
                 }
                 emit(nontrivial, &input, &output, Some(sweep_oracle(&cfg, &out)));
             }
+            Err(_) if tail_ops(&cfg) > 0 => {
+                // operators beyond the sweep count in n: `cutoff - n` may legitimately run out (outside the samplers' use)
+                stat("traj_tail_ops_overflow_skipped", 1);
+            }
             Err(p) => {
                 let input = format!("{} {} {} {} {} -", head, rat(cfg.beta), cfg.cutoff, bits(&cfg.state), show_cfg_slots(&cfg.slots));
                 emit(true, &input, &format!("PANIC:{}", p.replace(' ', "_")), Some(Err(format!("sweep panicked: {}", p))));
@@ -103,7 +107,10 @@ fn pick_case(g: &mut SplitMix64) -> (Cfg, usize, usize) {
         tries += 1;
         let cfg = gen_cfg(g, true);
         let before = padded(&cfg);
-        let empties: Vec<usize> = (0..before.len()).filter(|p| before[*p].is_none()).collect();
+        if tail_ops(&cfg) > 0 {
+            continue;
+        }
+        let empties: Vec<usize> = (0..before.len().min(cfg.cutoff)).filter(|p| before[*p].is_none()).collect();
         if empties.is_empty() {
             continue;
         }
@@ -122,6 +129,9 @@ fn pick_case(g: &mut SplitMix64) -> (Cfg, usize, usize) {
             }
             b = *g.pick(&hit);
             stat(&format!("prob_multivar_at_argmax_{}", bit_index(substate(&st, &cfg.bonds[b].vars).iter())), 1);
+        }
+        if cfg.slots.len() > cfg.cutoff {
+            stat("prob_container_longer_than_sweep", 1);
         }
         return (cfg, k, b);
     }
@@ -205,7 +215,7 @@ fn prob_metropolis(g: &mut SplitMix64) -> bool {
         k,
         b
     );
-    let jdec = match locate_m(&before, &base, k) {
+    let jdec = match locate_m(&before[..cfg.cutoff], &base, k) {
         Some(j) if j >= 1 => j,
         _ => {
             emit(true, &input, "unlocatable", None);
@@ -264,7 +274,7 @@ fn prob_metropolis(g: &mut SplitMix64) -> bool {
         stat("prob_prefix_diverged", 1);
         return false;
     }
-    let jrem = match locate_m(&before2, &base2, k) {
+    let jrem = match locate_m(&before2[..cfg2.cutoff], &base2, k) {
         Some(j) => j,
         None => {
             emit(true, &input, "unlocatable", None);
@@ -340,7 +350,7 @@ fn prob_heatbath(g: &mut SplitMix64) -> bool {
         k,
         b
     );
-    let j = match locate_h(&before, &base, k) {
+    let j = match locate_h(&before[..cfg.cutoff], &base, k) {
         Some(j) => j,
         None => {
             emit(true, &input, "unlocatable", None);
@@ -393,7 +403,7 @@ fn prob_heatbath(g: &mut SplitMix64) -> bool {
         stat("prob_prefix_diverged", 1);
         return false;
     }
-    let j2 = match locate_h(&before2, &base2, k) {
+    let j2 = match locate_h(&before2[..cfg2.cutoff], &base2, k) {
         Some(j2) => j2,
         None => {
             emit(true, &input, "unlocatable", None);
@@ -660,7 +670,8 @@ fn ising_field(g: &mut SplitMix64, ncases: usize) {
         let mut spec = gen_ising_spec(g);
         spec.h = *g.pick(&[0.25, -0.25, 0.5, -0.5, 1.0, -1.0, 2.0, -1.5]);
         let mut smp = Smp::Ising(spec.build(&rng), spec.edges.clone());
-        enable_heatbath(&mut smp, true);
+        let heat = g.chance(3, 4);
+        enable_heatbath(&mut smp, heat);
         let beta = *g.pick(&[0.25, 0.5, 1.0, 2.0]);
         let mut ok = true;
         for _ in 0..g.range(0, 4) {
@@ -670,7 +681,15 @@ fn ising_field(g: &mut SplitMix64, ncases: usize) {
             continue;
         }
         let kind = if spec.h > 0.0 { "ising_field_positive" } else { "ising_field_negative" };
-        if !emit_sweep(&mut smp, &rng, beta, kind, true, None, false) {
+        // in half of the cases the container is grown by hand beyond the sampler's sweep (`get_manager_mut().set_cutoff(big)`)
+        if g.coin() && grow_manager(&mut smp, g.range(1, 40) as usize) {
+            stat(if heat { "ising_manager_grown_heatbath" } else { "ising_manager_grown_metropolis" }, 1);
+        }
+        if !emit_sweep(&mut smp, &rng, beta, kind, heat, None, false) {
+            continue;
+        }
+        if !heat {
+            done += 1;
             continue;
         }
         if g.coin() {
@@ -683,6 +702,80 @@ fn ising_field(g: &mut SplitMix64, ncases: usize) {
         let bond = Some(spec.edges.len() + spec.nvars + v);
         prob_on(g, &rng, smp, kind, beta, ProbOpts { bond, table_from_ham: true, zero_ok: true, ..Default::default() });
         done += 1;
+    }
+}
+
+/// Generic samplers with several CONSTANT single-site terms of different weights (weight 0 included): each constant bond
+/// must be filled / emptied with ITS OWN weight, whatever was evaluated earlier in the sweep. Metropolis (`mprob_fresh`) and
+/// heat-bath (`prob_on` with an earlier insertion of another constant bond), plus trajectories of both variants.
+fn constant_terms(g: &mut SplitMix64, ncases: usize) {
+    for _ in 0..ncases {
+        let nvars = g.range(2, 4) as usize;
+        let weights = [0.25, 0.5, 1.0, 1.5, 2.0, 3.0];
+        let mut spec: Vec<(Vec<f64>, Vec<usize>, bool)> = vec![];
+        let mut consts: Vec<(usize, f64)> = vec![];
+        for v in 0..nvars {
+            if v < 2 || g.chance(2, 3) {
+                let mut w = if g.chance(1, 4) { 0.0 } else { *g.pick(&weights) };
+                if v == 1 && w == consts[0].1 {
+                    w += 0.75;
+                }
+                consts.push((spec.len(), w));
+                spec.push((vec![w; 4], vec![v], false));
+            }
+        }
+        for _ in 0..g.range(0, 2) {
+            spec.push(gen_interaction(g, nvars));
+        }
+        // random order of registration
+        for i in (1..spec.len()).rev() {
+            let j = g.below(i as u64 + 1) as usize;
+            spec.swap(i, j);
+            for c in consts.iter_mut() {
+                if c.0 == i {
+                    c.0 = j
+                } else if c.0 == j {
+                    c.0 = i
+                }
+            }
+        }
+        let state: Vec<bool> = (0..nvars).map(|_| g.coin()).collect();
+        let build = |rng: &SharedRng| -> Smp {
+            let mut q = GenQ::new_with_state(nvars, rng.clone(), state.clone(), false);
+            let mut vl = vec![];
+            for (mat, vars, d) in spec.iter() {
+                add_interaction(&mut q, mat, vars, *d).unwrap();
+                vl.push(vars.clone());
+            }
+            Smp::Gen(q, vl)
+        };
+        let b = consts[g.below(consts.len() as u64) as usize];
+        let others: Vec<(usize, f64)> = consts.iter().cloned().filter(|c| c.0 != b.0).collect();
+        let pre = *g.pick(&others);
+        // --- Metropolis
+        let rng = SharedRng::new(g.next());
+        mprob_fresh(g, &rng, build(&rng), "constant_terms", b.0, pre.0);
+        // --- heat-bath: an earlier insertion of another constant bond (positive weight), then bond b
+        let pos: Vec<(usize, f64)> = others.iter().cloned().filter(|c| c.1 > 0.0).collect();
+        let rng = SharedRng::new(g.next());
+        let mut smp = build(&rng);
+        enable_heatbath(&mut smp, true);
+        let beta = *g.pick(&[0.25, 0.5, 1.0, 2.0]);
+        smp.set_cutoff(g.range(4, 12) as usize);
+        for _ in 0..g.range(0, 2) {
+            let _ = catch(|| smp.timestep(beta));
+        }
+        let heat_first = g.coin();
+        enable_heatbath(&mut smp, heat_first);
+        emit_sweep(&mut smp, &rng, beta, "constant_terms", heat_first, None, false);
+        enable_heatbath(&mut smp, true);
+        emit_sweep(&mut smp, &rng, beta, "constant_terms", true, None, false);
+        if !pos.is_empty() {
+            let c = *g.pick(&pos);
+            if prob_on(g, &rng, smp, "constant_terms", beta, ProbOpts { bond: Some(b.0), pre_bond: Some(c.0), table_from_ham: true, zero_ok: true, ..Default::default() }) {
+                stat("constant_terms_heatbath_bisected", 1);
+            }
+        }
     }
 }
 
@@ -715,6 +808,7 @@ fn main() {
             generic(&mut g, if a.thorough { 3000 } else { 300 });
             converted(&mut g, if a.thorough { 2000 } else { 200 });
             ising_field(&mut g, if a.thorough { 3000 } else { 300 });
+            constant_terms(&mut g, if a.thorough { 3000 } else { 300 });
         }
         m => panic!("unknown mode {}", m),
     }
